@@ -2,7 +2,7 @@ package main
 
 func init() {
 	register("C12",
-		"Race-freedom by construction, decided from the source: the three shared maps (codec registry, schema registry, timezone cache) are accessed only with their mutex held, exclusively for writes, and never leave the critical section (LK-GUARD, must-hold dataflow); every other package-level variable is a sync primitive or written only during package initialisation (LK-GLOBAL, with a positive fixture); no method of any codec type writes through its receiver, so built codecs are shareable (LK-IMMUT); the bank pool is used only via Get/Put (LK-POOL); stateful compressors are created per reader/writer and never stored in package state (LK-OWN). "+
+		"Race-freedom by construction, decided from the source: the three shared maps (codec registry, schema registry, timezone cache) are accessed only with their mutex held, exclusively for writes, and never leave the critical section (LK-GUARD, must-hold dataflow); every other package-level variable is a sync primitive or written only during package initialisation (LK-GLOBAL, with a positive fixture); no method of any codec type writes through its receiver, so built codecs are shareable (LK-IMMUT); the bank pool is used only via Get/Put (LK-POOL); stateful compressors are created per reader/writer and never stored in package state (LK-OWN); a bank handed to a callback is no longer referenced by the reader that filled it — extraction always installs a fresh one (OD-BANK). "+
 			"Not decided: result-equivalence under interleaving, races inside third-party packages, and user-side misuse (closing a bank twice).",
 		func(c *Ctx) {
 			ruleLKGuard(c)
@@ -10,6 +10,7 @@ func init() {
 			ruleLKImmut(c)
 			ruleLKPool(c)
 			ruleLKOwn(c)
+			ruleODBank(c, findReadFile(c.P))
 			c.Note("not decided: that each operation produces the result it would produce alone (value-level); races inside the standard library, snappy, json")
 		})
 }
